@@ -7,6 +7,8 @@
     descending list with duplicates: [peek] = head, [push] = ordered insertion. Every loop has
     explicit fuel; Proofs/C18.v shows the stated fuel always suffices. Definitions only. *)
 From Verif Require Import Base.Prelude Base.DagI.
+From Verif Require Export Model.C18Codec.
+From Verif Require Import Gen.Tables.
 
 (** ** BinaryHeap as a descending list *)
 Fixpoint hpush (x : nat) (h : list nat) : list nat :=
@@ -207,14 +209,16 @@ Definition flat_graph (st : stack) : graph := map snd (flat st).
 Fixpoint squash_sizes (num_new : nat) (files : list nat) : list nat :=
   match files with
   | [] => [num_new]
-  | f :: rest => if (2 * num_new <? f)%nat then num_new :: files else squash_sizes (num_new + f) rest
+  | f :: rest => if (C18_SQUASH_FACTOR * num_new <? f)%nat then num_new :: files
+                 else squash_sizes (num_new + f) rest
   end.
 (** on segments: the absorbed files are re-added oldest first, then the mutable segment
     (add_commits_from); positions do not change *)
 Fixpoint squash_segs (top : segment) (files : list segment) : stack :=
   match files with
   | [] => [top]
-  | f :: rest => if (2 * length top <? length f)%nat then top :: files else squash_segs (f ++ top) rest
+  | f :: rest => if (C18_SQUASH_FACTOR * length top <? length f)%nat then top :: files
+                 else squash_segs (f ++ top) rest
   end.
 (** store.rs:457 save_mutable_index: squash, then save; an empty mutable segment on top of a
     parent file is dropped (mutable.rs:349) *)
@@ -249,9 +253,17 @@ Record snap := mk_snap {
 (** one committed transaction: segment sizes (oldest first, as IndexStats lists them) before,
     number of commits the transaction added, sizes after *)
 Definition level_obs := (list nat * nat * list nat)%type.
+(** one commit index segment file as found on disk *)
+Record seg_file := mk_file {
+  f_parent : list N;           (* parent segment file name (hex, ASCII), empty for the root file *)
+  f_entries : list centry;     (* the segment's commits by local position: ids from the store,
+                                  generation from the index API, parents from the commits *)
+  f_bytes : list N;            (* impl: the bytes of index/segments/<name> *)
+}.
 Record case := mk_case {
   c_snaps : list snap;         (* the same repo observed at several points *)
   c_levels : list level_obs;   (* impl: IndexStats::commit_levels around plain transactions *)
+  c_files : list seg_file;     (* impl: the segment files of the final index *)
   c_panicked : bool;
 }.
 
@@ -297,8 +309,28 @@ Definition level_ok (o : level_obs) : bool :=
   | _ => true
   end.
 
+(** the writer model reproduces the file byte for byte *)
+Definition file_corr (f : seg_file) : bool :=
+  bytes_eqb (encode_file (f_parent f) (f_entries f)) (f_bytes f).
+(** reading the real bytes the way the index does gives back every commit's generation,
+    parents (any number) and id *)
+Definition entry3_eqb (a b : N * list N * list N) : bool :=
+  let '(g1, p1, i1) := a in let '(g2, p2, i2) := b in
+  (g1 =? g2)%N && list_eqb N.eqb p1 p2 && bytes_eqb i1 i2.
+Definition file_ok (f : seg_file) : bool :=
+  let idlen := match f_entries f with e :: _ => length (ce_id e) | [] => O end in
+  let chlen := match f_entries f with e :: _ => length (ce_change e) | [] => O end in
+  match decode_file idlen chlen (f_bytes f) with
+  | Some (p, ents) =>
+      bytes_eqb p (f_parent f) &&
+      list_eqb entry3_eqb ents (map (fun e => (ce_gen e, ce_parents e, ce_id e)) (f_entries f))
+  | None => false
+  end.
+
 Definition okb (c : case) : bool :=
-  negb (c_panicked c) && forallb snap_ok (c_snaps c) && forallb level_ok (c_levels c).
+  negb (c_panicked c) && forallb snap_ok (c_snaps c) && forallb level_ok (c_levels c) &&
+  forallb file_ok (c_files c).
 Definition check_case (c : case) : N :=
-  verdict (forallb snap_corr (c_snaps c) && forallb level_corr (c_levels c) && negb (c_panicked c))
+  verdict (forallb snap_corr (c_snaps c) && forallb level_corr (c_levels c) &&
+           forallb file_corr (c_files c) && negb (c_panicked c))
           (okb c) false 1.
